@@ -1145,7 +1145,7 @@ def analyse(ctx, case, S, loop) -> None:
             continue
         op = head[skip]
         if d == 'S' and op == 0x1D:
-            if outstanding[b] is not None and t - outstanding[b] < IND_TIMEOUT:
+            if outstanding[b] is not None and t - outstanding[b] < IND_TIMEOUT - 1e-6:  # (virtual time is a float: 30 s later may read 29.999999999)
                 upto = next((wn['ops'][-1] for wn in windows if wn['t0'] <= t <= wn['t1']), len(ops) - 1)
                 fail('indication/second_while_unconfirmed',
                      f'indication sent {t - outstanding[b]:.3f}s after another one on the same bearer that has not '
